@@ -55,10 +55,22 @@ def inproc (tasks : List (List Nat)) (sched : List (List Nat)) : String :=
   let (out, all) := go (init tasks) none [] sched []
   joinSp out ++ " # " ++ (if check chk0 all then "ok" else "bad")
 
+/-- the harness lets a process run until its next scheduling point: a task whose `task_lock` future got its
+result in a step resumes (takes the task lock) before the process answers, exactly one extra model step -/
+def crossRun (s : XSt) : List (Nat × Nat) → List XEv → XSt × List XEv
+  | [], acc => (s, acc)
+  | (p, t) :: rest, acc =>
+    let (s1, e1) := stepX s (p, t)
+    let (s2, e2) :=
+      if !(s.procs p).twoken && (s1.procs p).twoken then
+        match (s1.procs p).twaiters.head? with
+        | some w => stepX s1 (p, w)
+        | none => (s1, [])
+      else (s1, [])
+    crossRun s2 rest (acc ++ e1 ++ e2)
+
 def cross (size off : Nat) (file : Option (List Nat)) (tasks : List (List (List Nat))) (sched : List (Nat × Nat)) : String :=
-  let s0 := initX size off file tasks
-  let evs := runX s0 sched
-  let s := afterX s0 sched
+  let (s, evs) := crossRun (initX size off file tasks) sched []
   let own := match s.file.owner with | some p => s!"{p}" | none => "-"
   let pres := if s.file.present then "1" else "0"
   joinSp (evs.map showX) ++ s!" | f={pres}:" ++ ",".intercalate (s.file.data.map toString) ++ s!" own={own}"
